@@ -110,9 +110,8 @@ impl FormMultipartData {
             let string = StringExt::filter_ascii_control_characters(&string);
             current_string_is_empty = string.trim().len() == 0;
 
-            let _current_string_is_boundary =
-                string.replace(SYMBOL.hyphen, SYMBOL.empty_string)
-                    .ends_with(&boundary.replace(SYMBOL.hyphen, SYMBOL.empty_string));
+            // same test as in the body loop: a delimiter line contains the boundary as given
+            let _current_string_is_boundary = string.contains(&boundary);
 
             if _current_string_is_boundary {
                 let message = "There is at least one missing body part in the multipart/form-data request";
